@@ -318,7 +318,7 @@ Proof.
                     (match default with Some d => let! v := arg_val_i rec (set_arg false own0) b tv d in ret (v, set_arg false own0) | None => k end)).
       { intro k. destruct default; [apply eqM_bind; [apply AV|intro; apply eqM_refl]|apply eqM_refl]. }
       destruct (_ && _); [apply D|]. destruct (_ && _); [apply D|].
-      apply eqM_bind; [apply eqM_refl|]. intros [[|]|]; try apply eqM_refl;
+      apply eqM_bind; [apply eqM_refl|]. intros [[|]|]; [apply D| |];
         (destruct (_ && _); [apply D|apply eqM_refl]).
 Qed.
 
